@@ -25,6 +25,14 @@ are judged as fractions (=> sum = n_el); match_plasma_neutrality densities are >
 fractions and sum z n_z + charge of the given species = n_e (rtol 1e-9) whenever the species' charge does not exceed n_e.
 Function-valued results are evaluated at their knots (and mid-points: linear), equilibrium-mapped ones at (r, z) points
 whose psi_n was made a knot at run time, so no interpolation model is needed.
+Call-sequence class (12 % of cases): ONE mock atomic-data object per rate table stays alive while 3..8 consecutive calls of
+random entry points differ in one thing at a time (donor charge 0/1/2, donor element, receiver element, some points of
+n_e/T_e, donor density incl. exact zeros, rate table, entry point, donor on/off; sometimes on a fresh object); every call is
+judged by the recurrence for ITS arguments, a failing call that equals the exact solution for an earlier call's rates/donor
+is keyed sequence:result-depends-on-previous-call:<stale component>, and the first call repeated at the end must be identical.
+Donor-density profiles mix exact zeros with positive values (mode "mixed"; judged point by point, zero => no-donor balance)
+and n_e/T_e profiles contain coinciding entries; the scalar cross-entry comparison is made on the first point, the first
+positive-donor point and the first zero-donor point (key profile:donor-zero-at-some-points:cx-dropped-elsewhere:*).
 Mechanism keys: a mismatch on a point solved through scipy's bounded TRF iteration (OptimizeResult.status in {-1,0,1,2},
 seen through a recording wrapper of the module's lsq_linear reference) is keyed solver:*, a result equal to the exact
 no-donor solution while a donor was supplied is keyed tcx-donor-ignored:*, anything else by sub-clause and entry point.
@@ -40,7 +48,9 @@ LEVEL = "exploration"
 RULE = ("one case = (entry point, input representation, element Z=1..18, mock rate table (salt, spread 0.5..6 decades, "
         "physical or n_e-balanced magnitude), donor none / density>0 / density 0 / density None, 1..8 points with n_e "
         "1e16..1e22, T_e 0.3 eV..20 keV, n_D/n_e 1e-4..10, element density, 0..2 other species); distinct = distinct case "
-        "descriptors; non-trivial when at least one returned point was compared with the recurrence solution")
+        "descriptors; non-trivial when at least one returned point was compared with the recurrence solution; 12 % of the "
+        "cases are call sequences (3..8 calls on one atomic-data object changing one argument at a time + repeat of the "
+        "first), 25 % of the donor cases mix exact zeros and positive donor densities in one profile")
 LEVEL_TEXT = ("Exploration by runtime reference-model monitoring: every public entry point is executed on generated "
               "inputs of every documented representation and each returned point is compared with the exact recurrence "
               "solution of the balance equations, with tolerances derived from the conditioning of the system the code "
@@ -61,7 +71,8 @@ ASSUMPTIONS = ["rates are positive and finite at every driven point (quantifier:
 QUICK = dict(cases=600, workers=2, timecap=40)
 THOROUGH = dict(cases=26000, workers=16, timecap=600)
 REQUIRED = {"fractions": 5000, "balance": 5000, "sum_range": 500, "densities": 1500, "neutrality": 150, "cross_entry": 1000,
-            "interp_nodes": 2000, "eqmap_points": 1000, "contract_evals": 1000, "donor_sensitive": 80}
+            "interp_nodes": 2000, "eqmap_points": 1000, "contract_evals": 1000, "donor_sensitive": 80,
+            "sequence_steps": 100, "sequence_repeat": 20, "mixed_donor_points": 40}
 
 EPS = 2.220446049250313e-16
 CF = 200.0
@@ -73,7 +84,12 @@ SLACK_SKIP = 1e-6
 
 ELEMENTS = ["hydrogen", "helium", "lithium", "beryllium", "boron", "carbon", "nitrogen", "oxygen", "fluorine", "neon",
             "sodium", "magnesium", "aluminium", "silicon", "phosphorus", "sulfur", "chlorine", "argon"]
-DONORS = [("hydrogen", 0), ("hydrogen", 0), ("deuterium", 0), ("helium", 0), ("helium", 1)]
+DONORS = [("hydrogen", 0), ("hydrogen", 0), ("deuterium", 0), ("helium", 0), ("helium", 1), ("carbon", 2), ("neon", 1)]
+SEQ_DONOR_ELEMENTS = ["hydrogen", "deuterium", "helium", "carbon", "neon"]
+SEQ_ENTRIES = ["fractional_abundance", "from_elementdensity", "match_plasma_neutrality", "interpolators1d_fractional"]
+SEQ_CHANGES = ["donor_charge", "donor_charge", "donor_element", "receiver_element", "plasma", "donor_density",
+               "atomic_data", "entry", "donor_on_off"]
+SEQ_WEIGHT = 0.12
 
 ALLREPS = ["scalar", "npscalar", "array1d", "array2d", "func1d", "func1d_scalar", "func2d", "mixed0d", "mixed1d", "mixed2d"]
 R1D = ["array1d", "func1d", "mixed1d"]
@@ -98,11 +114,12 @@ ENTRIES = {
 FAMILY_FN = {"fractional": "fractional_abundance", "from": "from_elementdensity", "match": "match_plasma_neutrality"}
 
 
-def _donor_key(entry, fam):
+def _donor_key(entry, fam, mixed=False):
     # mechanism = the coef_tcx selection of the point helper the entry point funnels through
-    if entry == "_fractional_abundance(coef_*)":
-        return "tcx-donor-ignored:_fractional_abundance(coef_tcx=...)"
-    return "tcx-donor-ignored:%s" % FAMILY_FN[fam]
+    fn = "_fractional_abundance(coef_tcx=...)" if entry == "_fractional_abundance(coef_*)" else FAMILY_FN[fam]
+    if mixed:   # the donor density is exactly zero at some points of the profile and positive at this one
+        return "profile:donor-zero-at-some-points:cx-dropped-elsewhere:%s" % fn
+    return "tcx-donor-ignored:%s" % fn
 N_EQ_CAND = 7
 
 _S = {}
@@ -117,6 +134,8 @@ def _logu(rng, lo, hi, size=None):
 
 
 def gen_case(rng, tier, entry=None, rep=None):
+    if entry is None and rng.random() < SEQ_WEIGHT:
+        return _gen_sequence(rng, tier)
     names = list(ENTRIES)
     w = np.array([ENTRIES[n]["w"] for n in names], dtype=float)
     if entry is None:
@@ -154,16 +173,31 @@ def gen_case(rng, tier, entry=None, rep=None):
     y = np.cumsum(np.concatenate([[rng.uniform(-1.0, 1.0)], _logu(rng, -2, 0, shape[1] - 1)])).tolist() if len(shape) == 2 else None
     ne = np.clip(ne_ref * _logu(rng, -1.5, 1.5, n), 1e16, 1e22)
     te = _logu(rng, -0.5, 4.3, n)
+    if n >= 2 and rng.random() < 0.25:      # profiles in which only some entries coincide
+        for _ in range(int(rng.integers(1, n))):
+            i, j = (int(v) for v in rng.choice(n, 2, replace=False))
+            ne[j] = ne[i]
+            if rng.random() < 0.5:
+                te[j] = te[i]
     # donor
     u = rng.random()
     donor = None
     nd = np.zeros(n)
     if u > 0.45:
         d = DONORS[int(rng.integers(len(DONORS)))]
-        mode = "pos" if u < 0.88 else ("zero" if u < 0.95 else "none_density")
+        v = rng.random()
+        mode = "pos" if v < 0.55 else ("mixed" if v < 0.8 else ("zero" if v < 0.9 else "none_density"))
+        if mode == "mixed" and n < 2:
+            mode = "pos"
         donor = {"el": d[0], "charge": d[1], "mode": mode}
-        if mode == "pos":
+        if mode in ("pos", "mixed"):
             nd = ne * _logu(rng, -4, 1, n)
+        if mode == "mixed":                 # exact zeros at some points, positive elsewhere
+            zero = rng.random(n) < 0.4
+            zero[int(rng.integers(n))] = True
+            if zero.all():
+                zero[int(rng.integers(n))] = False
+            nd[zero] = 0.0
     # element density / species
     band = 2.0 if (entry.startswith("interpolators") or iseq) else 6.0
     nel = ne * float(_logu(rng, -6, -1)) * _logu(rng, 0, band, n) / 10 ** band
@@ -198,6 +232,8 @@ def gen_case(rng, tier, entry=None, rep=None):
             k = "func" if rng.random() < 0.5 else "array"
         kinds[p] = k
     flav = {p: ["py", "lin", "cub"][int(rng.integers(3))] for p in ("ne", "te", "nd", "nel")}
+    if donor is not None and donor["mode"] == "mixed" and flav["nd"] == "cub":
+        flav["nd"] = "lin"                  # a cubic need not return the exact zeros at its knots
     for sp in species:
         if rep in ("scalar", "npscalar"):
             sp["kind"] = "dict_array" if sp["kind"] == "dict_func" else sp["kind"]
@@ -214,6 +250,78 @@ def gen_case(rng, tier, entry=None, rep=None):
         case["eq"] = {"cand": [[float(2.0 + 0.45 * r * math.cos(t)), float(0.75 * r * math.sin(t))] for r, t in zip(rho, th)],
                       "phi": float(rng.uniform(0, 2 * np.pi))}
     return case
+
+
+def _gen_sequence(rng, tier):
+    """call-sequence class: 3..8 consecutive calls on the same (or a fresh) atomic-data object that differ in one thing at
+    a time, followed by a repeat of the first call.  Every step is stored fully expanded."""
+    n = int(rng.integers(2, 5))
+    x = np.cumsum(np.concatenate([[rng.uniform(0.1, 2.0)], _logu(rng, -2, 0, n - 1)])).tolist()
+    decades = float([0.5, 1.0, 2.0, 3.0][int(rng.integers(4))])
+    ne_ref = float(_logu(rng, 17.5, 20.5))
+
+    def plasma():
+        return np.clip(ne_ref * _logu(rng, -1.0, 1.0, n), 1e16, 1e22), _logu(rng, -0.5, 4.3, n)
+
+    def donor_ratio():
+        r = _logu(rng, -3, 1, n)
+        if rng.random() < 0.4:
+            zero = rng.random(n) < 0.4
+            if zero.all():
+                zero[int(rng.integers(n))] = False
+            r[zero] = 0.0
+        return r
+
+    def new_donor(exclude=None):
+        while True:
+            d = {"el": SEQ_DONOR_ELEMENTS[int(rng.integers(len(SEQ_DONOR_ELEMENTS)))], "charge": int(rng.integers(0, 3))}
+            if d != exclude:
+                return d
+
+    ne, te = plasma()
+    st = dict(Z=int(rng.integers(1, 19)), par=[int(rng.integers(1 << 31)), decades, -16.0],
+              donor=new_donor() if rng.random() < 0.75 else None, ne=ne, te=te, ndr=donor_ratio(),
+              entry=SEQ_ENTRIES[int(rng.integers(len(SEQ_ENTRIES)))])
+    nelr = float(_logu(rng, -5, -1)) * _logu(rng, 0, 1.5, n) / 10 ** 1.5
+    nz = int(rng.integers(2, 5))
+    raw = _logu(rng, -2, 0, (nz, n))
+    sp_frac = raw * (rng.uniform(0.05, 0.8, n) / (np.arange(nz)[:, None] * raw).sum(axis=0))[None, :]
+
+    def snap(change, fresh):
+        d = st["donor"]
+        nd = st["ne"] * st["ndr"] if d is not None else np.zeros(n)
+        return dict(entry=st["entry"], change=change, fresh_ad=bool(fresh), Z=st["Z"], par=list(st["par"]),
+                    donor=dict(d) if d else None, ne=st["ne"].tolist(), te=st["te"].tolist(), nd=nd.tolist(),
+                    nel=(st["ne"] * nelr).tolist())
+
+    steps = [snap("first", False)]
+    for _ in range(int(rng.integers(2, 8))):
+        change = SEQ_CHANGES[int(rng.integers(len(SEQ_CHANGES)))]
+        if st["donor"] is None and change in ("donor_charge", "donor_element", "donor_density"):
+            change = "donor_on_off"
+        if change == "donor_charge":
+            st["donor"] = dict(st["donor"], charge=int([c for c in (0, 1, 2) if c != st["donor"]["charge"]][int(rng.integers(2))]))
+        elif change == "donor_element":
+            st["donor"] = dict(st["donor"], el=[e for e in SEQ_DONOR_ELEMENTS if e != st["donor"]["el"]][int(rng.integers(len(SEQ_DONOR_ELEMENTS) - 1))])
+        elif change == "receiver_element":
+            st["Z"] = int([z for z in range(1, 19) if z != st["Z"]][int(rng.integers(17))])
+        elif change == "plasma":                      # redraw some points only: the others coincide with the previous call
+            ne2, te2 = plasma()
+            m = rng.random(n) < 0.5
+            m[int(rng.integers(n))] = True
+            st["ne"] = np.where(m, ne2, st["ne"])
+            st["te"] = np.where(m & (rng.random(n) < 0.7), te2, st["te"])
+        elif change == "donor_density":
+            st["ndr"] = donor_ratio()
+        elif change == "atomic_data":
+            st["par"] = [int(rng.integers(1 << 31)), decades, -16.0]
+        elif change == "donor_on_off":
+            st["donor"] = None if st["donor"] is not None else new_donor()
+        if change == "entry" or rng.random() < 0.5:
+            st["entry"] = [e for e in SEQ_ENTRIES if e != st["entry"]][int(rng.integers(len(SEQ_ENTRIES) - 1))]
+        steps.append(snap(change, rng.random() < 0.25))
+    steps.append(dict(steps[0], change="repeat-first"))
+    return dict(entry="call_sequence", rep="array1d", x=x, sp_frac=sp_frac.tolist(), steps=steps)
 
 
 def fixed_cases(tier):
@@ -393,7 +501,7 @@ def _ratios(f, O, Z, slack):
     return rS, rJ, rF, tolF
 
 
-def _judge_point(ctx, case, fam, f, O, O_nd, status, slack, check_sum, where, nodonor_ref=None):
+def _judge_point(ctx, case, fam, f, O, O_nd, status, slack, check_sum, where, nodonor_ref=None, mixed=False):
     """f: fraction vector returned for one point. O: oracle with the supplied donor, O_nd: oracle without donor (or None).
     nodonor_ref(): the module's own scalar fractional_abundance answer WITHOUT donor at this point (mechanism classifier)."""
     entry = case["entry"]
@@ -452,7 +560,7 @@ def _judge_point(ctx, case, fam, f, O, O_nd, status, slack, check_sum, where, no
                 r2 = r2 / r2.sum()     # f was normalised by the harness; the module's own sum is 1 only to solver accuracy
             same = r2 is not None and bool(np.all(np.abs(f - r2) <= 1e-12 + 1e-9 * np.abs(r2) + 2.0 * slack))
         if same:
-            ctx.viol(_donor_key(entry, fam),
+            ctx.viol(_donor_key(entry, fam, mixed),
                      "a thermal-CX donor with density > 0 was supplied but the result equals the solution WITHOUT donor",
                      entry=entry, max_diff_with_vs_without=float(np.abs(O_nd["f"] - O["f"]).max()), **detail)
             return False
@@ -476,6 +584,8 @@ def _stack(res, Z):
 
 
 def run_case(case, ctx):
+    if case["entry"] == "call_sequence":
+        return _run_sequence(case, ctx)
     ib, C = _S["ib"], _S["C"]
     entry, rep, Z = case["entry"], case["rep"], case["Z"]
     fam = ENTRIES[entry]["fam"]
@@ -564,6 +674,10 @@ def run_case(case, ctx):
     O = [_oracle_point(elname, Z, par, float(ne[i]), float(te[i]), dkey, float(nd[i])) for i in range(npts)]
     O_nd = [(_oracle_point(elname, Z, par, float(ne[i]), float(te[i]), None, 0.0) if (dkey is not None and nd[i] > 0) else None)
             for i in range(npts)]
+
+    mixed_profile = bool(dkey is not None and np.any(nd > 0) and np.any(nd == 0))
+    if len(set(zip(ne.tolist(), te.tolist()))) < npts:
+        ctx.cls("profile:coinciding-points")
 
     ad = M.make_atomic_data(par)
     n0 = len(C.STATE["lsq"])
@@ -743,7 +857,10 @@ def run_case(case, ctx):
         def nd_ref(i=i):
             r2 = scalar_ref(False, i)
             return None if r2 is None else r2[0]
-        _judge_point(ctx, case, fam, f, O[i], O_nd[i], statuses[i], slack, check_sum, where, nodonor_ref=nd_ref)
+        if mixed_profile and nd[i] > 0:
+            ctx.mon("mixed_donor_points")
+        _judge_point(ctx, case, fam, f, O[i], O_nd[i], statuses[i], slack, check_sum, where, nodonor_ref=nd_ref,
+                     mixed=mixed_profile)
 
     # ---- structure of function-valued results ------------------------------------------------------------------------
     if entry.startswith("interpolators"):
@@ -768,39 +885,198 @@ def run_case(case, ctx):
                   "mapped function differs between (r,0,z) and (r cos phi, r sin phi, z)", rtol=1e-9,
                   atol=1e-9 * float(np.max(np.abs(got))) + 1e-300, monitor="eqmap_axisym")
 
-    # ---- cross entry point: the scalar fractional_abundance call on the first returned point -------------------------
-    j, i = 0, cols[0]
-    g = got[:, j]
-    if 0 in col_slack and np.all(np.isfinite(g)) and g.sum() > 0 and not (entry == "fractional_abundance" and rep == "scalar"):
+    # ---- cross entry point: the scalar fractional_abundance call on the first returned point and, with a donor, on the
+    #      first point with positive and the first point with exactly zero donor density ------------------------------
+    pick = [0]
+    if donor is not None:
+        pick += [j for j, i in enumerate(cols) if nd[i] > 0][:1] + [j for j, i in enumerate(cols) if nd[i] == 0][:1]
+    for j in sorted(set(pick)):
+        i = cols[j]
+        g = got[:, j]
+        if not (j in col_slack and np.all(np.isfinite(g)) and g.sum() > 0) or (entry == "fractional_abundance" and rep == "scalar"):
+            continue
         rr = scalar_ref(donor is not None, i)
         if rr is None:
-            return
+            continue
         ref, ref_status = rr
         if fam == "match" and ref.sum() > 0:
             ref = ref / ref.sum()      # match densities are judged as a normalised vector
         f = g if fam == "fractional" else (g / nel[i] if fam == "from" else g / g.sum())
-        tol = 1e-12 + 1e-9 * np.abs(ref) + 2.0 * col_slack[0]
+        tol = 1e-12 + 1e-9 * np.abs(ref) + 2.0 * col_slack[j]
         bad = np.abs(f - ref) > tol
         ctx.mon("cross_entry", Z + 1)
-        if bad.any():
-            trf_involved = statuses[i] in C.TRF_STATUSES or ref_status in C.TRF_STATUSES
-            if O_nd[i] is not None:
-                r2 = scalar_ref(False, i)
-                if r2 is not None:
-                    trf_involved = trf_involved or r2[1] in C.TRF_STATUSES
-                    r2f = r2[0] / r2[0].sum() if (fam == "match" and r2[0].sum() > 0) else r2[0]
-                    if np.all(np.abs(f - r2f) <= 1e-12 + 1e-9 * np.abs(r2f) + 2.0 * col_slack[0]):
-                        ctx.viol(_donor_key(entry, fam),
-                                 "a thermal-CX donor with density > 0 was supplied: fractional_abundance uses it, this entry point "
-                                 "returns exactly the module's own no-donor fractions", entry=entry, point=i)
-                        return
-            if trf_involved:
-                ctx.skip("cross-entry comparison not judged: a bounded-TRF-path solve is involved (reported per point)")
-                return
-            k = int(np.argmax(np.abs(f - ref) / tol))
-            ctx.viol("entry-points-disagree:%s-vs-fractional_abundance(scalar)" % entry,
-                     "same point, same rates: fractions differ from the scalar fractional_abundance call",
-                     charge=k, got=float(f[k]), ref=float(ref[k]), rep=rep, point=i)
+        if not bad.any():
+            continue
+        trf_involved = statuses[i] in C.TRF_STATUSES or ref_status in C.TRF_STATUSES
+        classified = False
+        if O_nd[i] is not None:
+            r2 = scalar_ref(False, i)
+            if r2 is not None:
+                trf_involved = trf_involved or r2[1] in C.TRF_STATUSES
+                r2f = r2[0] / r2[0].sum() if (fam == "match" and r2[0].sum() > 0) else r2[0]
+                if np.all(np.abs(f - r2f) <= 1e-12 + 1e-9 * np.abs(r2f) + 2.0 * col_slack[j]):
+                    ctx.viol(_donor_key(entry, fam, mixed_profile),
+                             "a thermal-CX donor with density > 0 was supplied at this point: the scalar fractional_abundance call "
+                             "uses it, this entry point returns exactly the module's own no-donor fractions", entry=entry, point=i,
+                             donor_density_profile=[float(v) for v in nd])
+                    classified = True
+        if classified:
+            continue
+        if trf_involved:
+            ctx.skip("cross-entry comparison not judged: a bounded-TRF-path solve is involved (reported per point)")
+            continue
+        k = int(np.argmax(np.abs(f - ref) / tol))
+        ctx.viol("entry-points-disagree:%s-vs-fractional_abundance(scalar)" % entry,
+                 "same point, same rates: fractions differ from the scalar fractional_abundance call",
+                 charge=k, got=float(f[k]), ref=float(ref[k]), rep=rep, point=i)
+
+
+# =====================================================================================================================
+# call sequences: results must not depend on what was called before
+# =====================================================================================================================
+
+def _point_ok(f, O, Z, slack, check_sum=True):
+    if not np.all(np.isfinite(f)) or f.min() < -slack or f.max() > 1.0 + 1e-12 + slack:
+        return False
+    rS, rJ, rF, tolF = _ratios(f, O, Z, slack)
+    return (rS <= 1 or not check_sum) and rJ <= 1 and (rF <= 1 or tolF > FWD_SKIP)
+
+
+def _seq_oracles(cfg):
+    el = getattr(_S["em"], ELEMENTS[cfg["Z"] - 1])
+    d = cfg["donor"]
+    dkey = (getattr(_S["em"], d["el"]).name, d["charge"]) if d else None
+    par = tuple(cfg["par"])
+    O, O_nd = [], []
+    for ne, te, nd in zip(cfg["ne"], cfg["te"], cfg["nd"]):
+        O.append(_oracle_point(el.name, cfg["Z"], par, ne, te, dkey, nd))
+        O_nd.append(_oracle_point(el.name, cfg["Z"], par, ne, te, None, 0.0) if (dkey is not None and nd > 0) else None)
+    return O, O_nd
+
+
+def _run_sequence(case, ctx):
+    ib, C = _S["ib"], _S["C"]
+    xs = np.array(case["x"], dtype=float)
+    sp_frac = np.array(case["sp_frac"], dtype=float)
+    ctx.cls("entry:call_sequence")
+    shared = {}          # ONE atomic-data object per rate table stays alive for the whole sequence
+    keep = []            # fresh objects are kept alive too (no id() reuse)
+    first_got = None
+    history = []
+    for k, stp in enumerate(case["steps"]):
+        entry, Z = stp["entry"], stp["Z"]
+        fam = ENTRIES[entry]["fam"]
+        ctx.cls("seqchange:" + stp["change"])
+        el = getattr(_S["em"], ELEMENTS[Z - 1])
+        ne, te, nd, nel = (np.array(stp[q], dtype=float) for q in ("ne", "te", "nd", "nel"))
+        par = tuple(stp["par"])
+        if stp["fresh_ad"] or par not in shared:
+            ad = M.make_atomic_data(par)
+            keep.append(ad)
+            if par not in shared:
+                shared[par] = ad
+        else:
+            ad = shared[par]
+        d = stp["donor"]
+        dargs = (getattr(_S["em"], d["el"]), nd.copy(), d["charge"]) if d else (None, None, 0)
+        dens = sp_frac * ne[None, :]
+        species = [{z: dens[z].copy() for z in range(dens.shape[0])}]
+        try:
+            if entry == "fractional_abundance":
+                got = _stack(ib.fractional_abundance(ad, el, ne.copy(), te.copy(), *dargs), Z)
+            elif entry == "from_elementdensity":
+                got = _stack(ib.from_elementdensity(ad, el, nel.copy(), ne.copy(), te.copy(), *dargs), Z)
+            elif entry == "match_plasma_neutrality":
+                got = _stack(ib.match_plasma_neutrality(ad, el, species, ne.copy(), te.copy(), *dargs), Z)
+            else:
+                res = ib.interpolators1d_fractional(ad, el, xs.copy(), ne.copy(), te.copy(), *dargs)
+                got = np.array([[res[z](x) for x in xs] for z in range(Z + 1)])
+        except C.SolverNonTermination as e:
+            ctx.viol("solver:lsq_linear-bounded-trf-path-never-returns", "entry point would never return (%s)" % e, entry=entry, step=k)
+            return
+        except C.ContractViolation as e:
+            ctx.viol("contract:%s:%s" % (e.fn, e.clause), "postcondition of %s failed: %s" % (e.fn, e.clause), entry=entry, step=k)
+            return
+        del C.STATE["lsq"][:max(0, len(C.STATE["lsq"]) - 64)]
+        if got.shape != (Z + 1, ne.size):
+            ctx.viol("shape:%s" % entry, "result has shape %s" % (got.shape,), step=k)
+            return
+        slack = SLACK_COEF if entry.startswith("interpolators") else 0.0
+        O, O_nd = _seq_oracles(stp)
+        mixed = bool(d is not None and np.any(nd > 0) and np.any(nd == 0))
+        F, okpts = [], []
+        for i in range(ne.size):
+            g = got[:, i]
+            if fam == "fractional":
+                f = g
+            elif fam == "from":
+                f = g / nel[i]
+            else:
+                rem = float(ne[i]) * (1.0 - float((np.arange(sp_frac.shape[0]) * sp_frac[:, i]).sum()))
+                charge = float((np.arange(Z + 1) * g).sum())
+                ctx.mon("neutrality")
+                if not (np.all(np.isfinite(g)) and g.min() >= 0 and abs(charge - rem) <= 2e-9 * float(ne[i]) and g.sum() > 0):
+                    ctx.viol("neutrality:%s" % entry, "sum_z z n_z + charge of the given species != n_e (or negative density)",
+                             step=k, point=i, got_charge=charge, want_charge=rem)
+                    f = None
+                else:
+                    f = g / g.sum()
+            F.append(f)
+            okpts.append(f is not None and _point_ok(f, O[i], Z, slack, check_sum=(fam != "match")))
+        ctx.mon("sequence_steps")
+        if all(okpts):
+            for i in range(ne.size):
+                _judge_point(ctx, {"entry": entry, "Z": Z}, fam, F[i], O[i], O_nd[i], None, slack, fam != "match",
+                             dict(step=k, point=i), mixed=mixed)       # counts monitors / margins
+                if mixed and nd[i] > 0:
+                    ctx.mon("mixed_donor_points")
+        elif all(f is not None for f in F):
+            # does the result belong to an EARLIER call of this sequence (stale state)?  Not asked when every failing point
+            # simply equals its own no-donor solution (that mechanism has its own keys).
+            failing = [i for i in range(ne.size) if not okpts[i]]
+            own_nodonor = all(O_nd[i] is not None and _point_ok(F[i], O_nd[i], Z, slack, check_sum=(fam != "match")) for i in failing)
+            stale = None
+            what = []
+            for kk, prev in ([] if own_nodonor else history):
+                if prev["Z"] != Z:
+                    continue
+                # stale rates / donor (own plasma and densities), or the previous call's answer as a whole
+                for cand in (dict(stp, donor=prev["donor"], par=prev["par"]), prev):
+                    if all(cand[q] == stp[q] for q in ("par", "donor", "ne", "te", "nd")):
+                        continue
+                    Op, _ = _seq_oracles(cand)
+                    if all(_point_ok(F[i], Op[i], Z, slack, check_sum=(fam != "match")) for i in range(ne.size)):
+                        stale = kk
+                        a, b = cand["donor"], stp["donor"]
+                        what = []
+                        if (a is None) != (b is None):
+                            what.append("donor_on_off")
+                        elif a is not None:
+                            what += ["donor_charge"] * (a["charge"] != b["charge"]) + ["donor_element"] * (a["el"] != b["el"])
+                        what += ["atomic_data"] * (cand["par"] != stp["par"])
+                        what += ["plasma"] * (cand["ne"] != stp["ne"] or cand["te"] != stp["te"])
+                        what += ["donor_density"] * (cand["nd"] != stp["nd"] and a is not None and b is not None)
+            if stale is not None:
+                ctx.viol("sequence:result-depends-on-previous-call:%s" % "+".join(what),
+                         "call %d of a sequence on one atomic-data object returns the exact solution for the arguments of call %d, "
+                         "not for its own (stale: %s)" % (k, stale, "+".join(what)), last_change=stp["change"],
+                         entry=entry, step=k, stale_step=stale, fresh_atomic_data=stp["fresh_ad"],
+                         calls=[(q["entry"], q["change"], q["donor"], q["Z"]) for q in case["steps"][:k + 1]])
+            else:
+                for i in range(ne.size):
+                    if not okpts[i]:
+                        _judge_point(ctx, {"entry": entry, "Z": Z}, fam, F[i], O[i], O_nd[i], None, slack, fam != "match",
+                                     dict(step=k, point=i, change=stp["change"]), mixed=mixed)
+        if k == 0:
+            first_got = got
+        elif stp["change"] == "repeat-first":
+            ctx.mon("sequence_repeat")
+            if not np.allclose(got, first_got, rtol=1e-12, atol=0.0):
+                ctx.viol("sequence:repeat-of-first-call-differs:%s" % entry,
+                         "the first call repeated at the end of the sequence (same atomic-data object, same arguments) returns a "
+                         "different result", max_rel=float(np.max(np.abs(got - first_got) / (np.abs(first_got) + 1e-300))),
+                         calls=[(q["entry"], q["change"]) for q in case["steps"]])
+        history.append((k, stp))
 
 
 # =====================================================================================================================
